@@ -292,8 +292,12 @@ class Parser:
                 lhs = ('bin', op, lhs, rhs)
             elif op == 'as':
                 self.eat()
-                ty = self.skip_type()
-                lhs = ('cast', lhs, ty)
+                # the type of a cast in expression position: a path `a::b::c` (casts bind tighter than any binary operator)
+                parts = [self.eat()]
+                while self.peek() == '::':
+                    self.eat()
+                    parts.append(self.eat())
+                lhs = ('cast', lhs, '::'.join(parts))
             else:
                 return lhs
 
